@@ -598,17 +598,23 @@ def hostile_axes(model, rng):
         keep.append(mm)
     model["masters"] = keep
     if rng.random() < 0.3:
-        # an axis on which nothing varies (every master at the same place), often listed before a mapped axis
-        used = {a["tag"] for a in model["axes"]}
-        tag, name, lo, df, hi = rng.choice([x for x in AXIS_POOL if x[0] not in used])
-        v = rng.choice([lo, df, hi])
-        d = v if rng.random() < 0.5 else round(v * 1.5 + 7, 1)
-        ax = {"tag": tag, "name": name, "min": v, "default": v, "max": v, "map": [] if d == v else [[v, d]], "hidden": False}
-        model["axes"].insert(rng.randrange(len(model["axes"]) + 1) if rng.random() < 0.4 else 0, ax)
-        for mm in model["masters"]:
-            mm["design_loc"] = {a["tag"]: (d if a["tag"] == tag else mm["design_loc"][a["tag"]]) for a in model["axes"]}
-        for inst in model["instances"]:
-            inst["user_loc"] = {a["tag"]: (v if a["tag"] == tag else inst["user_loc"][a["tag"]]) for a in model["axes"]}
+        add_point_axis(model, rng)
+    return model
+
+
+def add_point_axis(model, rng, mapped=0.5):
+    """An axis on which nothing varies (every master at the same place), often listed before the other axes: it stays out of
+    fvar, so everything that is indexed by axis (regions, avar maps, FeatureVariations conditions) must skip it."""
+    used = {a["tag"] for a in model["axes"]}
+    tag, name, lo, df, hi = rng.choice([x for x in AXIS_POOL if x[0] not in used])
+    v = rng.choice([lo, df, hi])
+    d = v if rng.random() >= mapped else round(v * 1.5 + 7, 1)
+    ax = {"tag": tag, "name": name, "min": v, "default": v, "max": v, "map": [] if d == v else [[v, d]], "hidden": False}
+    model["axes"].insert(rng.randrange(len(model["axes"]) + 1) if rng.random() < 0.4 else 0, ax)
+    for mm in model["masters"]:
+        mm["design_loc"] = {a["tag"]: (d if a["tag"] == tag else mm["design_loc"][a["tag"]]) for a in model["axes"]}
+    for inst in model["instances"]:
+        inst["user_loc"] = {a["tag"]: (v if a["tag"] == tag else inst["user_loc"][a["tag"]]) for a in model["axes"]}
     return model
 
 
@@ -1166,6 +1172,9 @@ def add_rules(model, rng, n_rules=None, conflicts=0.2):
             rules.append({"sets": sets, "subs": subs})
     model["rules"] = {"processing": rng.choice(["first", "first", "last"]), "rules": rules} if rules else None
     r2 = random.Random(rng.random())
+    if r2.random() < 0.4:
+        # a point axis in front of (or between) the axes the conditions name: condition axis indices count fvar axes only
+        add_point_axis(model, r2, mapped=0.3)
     if rules and r2.random() < 0.6 and {"D", "E"} <= have:
         # feature code of the source next to the rules: an aalt feature puts its own lookups in front of everything
         # else in GSUB, so the lookups the rule records point to move (they must move with it)
